@@ -2,7 +2,8 @@
    TbModel.run = hextb.cpp over the generated RTL (any power-on state); SimModel.run = hexsim.hpp (C02's model) from
    cpp_init.  Both loaders read the words the header announces (hextb.cpp since its repair; the debug tables behind the
    image are not program memory) and reject a file without header or with more than 200000 words announced: [file_ok],
-   [loaded_words]; everything else is zero in hexsim and power-on garbage in the RTL memory. *)
+   [loaded_words]; everything else is zero in hexsim, and in the RTL memory too since load() clears it before copying the
+   image (C13_load_clears_memory; known_findings.json: fixed, kind power-on / how memory). *)
 From Coq Require Import ZArith List String.
 From HexVerif Require Import WMap Isa Vexp RtlSem TbModel TbProofs.
 From HexVerif Require SimModel.
@@ -10,22 +11,24 @@ From HexVerif.gen Require RtlHex.
 Import ListNotations.
 Local Open Scope Z_scope.
 
-(* for every power-on state, every file and input that are well-behaved on the image (ISA trace defined, in range,
-   read-safe, nothing read outside the image before it is written) and whose ISA run exits within n instructions: hextb
+(* for every power-on state, every file and input that are well-behaved (ISA trace from the loaded words on zeroed memory
+   defined, in range, read-safe) and whose ISA run exits within n instructions: hextb
    (9 + 2n loop iterations suffice) and hexsim produce the ISA's events, leave the same input unread and return the same
    exit code.
    step_safe's read clause (a READ does not overwrite the word of its own SVC) excludes a shape that lies inside the
    property's literal quantifier: KNOWN FINDING, see known_findings.json (kind read-overwrites-own-svc: hextb retires the
    overwritten byte, hexsim the SVC), exhibited by tools/c06.py on every run with a hand-assembled binary.
+   The former hypothesis "nothing outside the image is read before it is written" is gone with the repair of load(): programs
+   such as tests/asm/hello_procedure.S, which exits with a word it never wrote, are covered (C06_unwritten_read below).
    The former hypothesis "the first instruction is not a system call" is gone: since the repair of hextb.cpp the request of
    the instruction at address 0 is sampled at the last reset edge (known_findings.json: fixed, kind first-instruction-svc). *)
 Theorem C06_tb_equals_sim_partial : forall (i : init) (file : list Z) (inp : inputs) (n : nat)
     (tr : list event) (inp' : inputs) (a' : arch) (c : Z),
   let ws := loaded_words file in
   file_ok file ->
-  well_behaved (Z.of_nat (List.length ws)) ws inp ->
+  well_behaved ws inp ->
   Isa.run n (boot ws) inp [] = (tr, inp', a', Exited c) ->
-  (exists st, run Current RtlHex.design (9 + 2 * n) 0 (power_on i file) inp [] = (tr, inp', st, TReturned (SimModel.to_int c))) /\
+  (exists st, run Current RtlHex.design (9 + 2 * n) 0 (power_on Current i file) inp [] = (tr, inp', st, TReturned (SimModel.to_int c))) /\
   (exists s, SimModel.run n 0 (SimModel.cpp_init ws) inp [] = (tr, inp', s, SimModel.Returned (SimModel.to_int c))).
 Proof. exact tb_equals_sim. Qed.
 Print Assumptions C06_tb_equals_sim_partial.
@@ -34,25 +37,25 @@ Print Assumptions C06_tb_equals_sim_partial.
 Definition C06_tb_equals_sim_full : Prop :=
   forall (i : init) (file : list Z) (inp : inputs) (n : nat) (tr : list event) (inp' : inputs) (a' : arch) (c : Z),
   let ws := loaded_words file in
-  file_ok file -> well_behaved0 (Z.of_nat (List.length ws)) ws inp ->
+  file_ok file -> well_behaved0 ws inp ->
   Isa.run n (boot ws) inp [] = (tr, inp', a', Exited c) ->
-  (exists st, run Current RtlHex.design (9 + 2 * n) 0 (power_on i file) inp [] = (tr, inp', st, TReturned (SimModel.to_int c))) /\
+  (exists st, run Current RtlHex.design (9 + 2 * n) 0 (power_on Current i file) inp [] = (tr, inp', st, TReturned (SimModel.to_int c))) /\
   (exists s, SimModel.run n 0 (SimModel.cpp_init ws) inp [] = (tr, inp', s, SimModel.Returned (SimModel.to_int c))).
 Theorem C06_tb_equals_sim_full_refuted : ~ C06_tb_equals_sim_full.
 Proof. exact tb_equals_sim_full_refuted. Qed.
 Print Assumptions C06_tb_equals_sim_full_refuted.
 
 (* the well-behavedness hypothesis is decided by a finite computation for a run that exits *)
-Theorem C06_well_behaved_decidable : forall (N : nat) (D : Z -> bool) (a : arch) (inp : inputs) (evs tr : list event)
+Theorem C06_well_behaved_decidable : forall (N : nat) (a : arch) (inp : inputs) (evs tr : list event)
     (inp' : inputs) (a' : arch) (c : Z),
-  Isa.run N a inp evs = (tr, inp', a', Exited c) -> wb_mon D N a inp = true -> forall n, wb_mon D n a inp = true.
-Proof. exact wb_exited. Qed.
+  Isa.run N a inp evs = (tr, inp', a', Exited c) -> safe_mon N a inp = true -> forall n, safe_mon n a inp = true.
+Proof. exact safe_exited. Qed.
 Print Assumptions C06_well_behaved_decidable.
 
 (* ------------------------------------------------------------------ non-vacuity: `proc main() is exit(7)` as compiled by xcmp *)
 Example C06_hypotheses_satisfiable :
   file_ok exit7_file /\
-  well_behaved (Z.of_nat (List.length (loaded_words exit7_file))) (loaded_words exit7_file) no_input /\
+  well_behaved (loaded_words exit7_file) no_input /\
   exists a', Isa.run 20 (boot (loaded_words exit7_file)) no_input [] = ([Exit 7], no_input, a', Exited 7).
 Proof. split; [exact exit7_file_ok|]. split; [exact exit7_well_behaved_loaded | exact exit7_isa_run]. Qed.
 (* files the loader rejects (no header; 200001 words announced) never reach run(): main returns 1, as hexsim's does *)
@@ -64,9 +67,19 @@ Example C06_loader_rejects :
 Proof. exact loader_rejects. Qed.
 (* a binary whose first instruction is OPR SVC (EXIT 42) satisfies the hypotheses; the testbench now exits with 42 *)
 Example C06_first_instruction_svc :
-  outcome (run Previous RtlHex.design 60 0 (power_on (planted 0 0 false) first_svc_file) no_input []) = ([Exit 9], TReturned 9) /\
-  outcome (run Current RtlHex.design 60 0 (power_on (planted 0 0 false) first_svc_file) no_input []) = ([Exit 42], TReturned 42) /\
-  outcome (run Current RtlHex.design 60 0 (power_on (planted 13 1 true) first_svc_file) no_input []) = ([Exit 42], TReturned 42) /\
+  outcome (run Previous RtlHex.design 60 0 (power_on Previous (planted 0 0 false) first_svc_file) no_input []) = ([Exit 9], TReturned 9) /\
+  outcome (run Current RtlHex.design 60 0 (power_on Current (planted 0 0 false) first_svc_file) no_input []) = ([Exit 42], TReturned 42) /\
+  outcome (run Current RtlHex.design 60 0 (power_on Current (planted 13 1 true) first_svc_file) no_input []) = ([Exit 42], TReturned 42) /\
   (exists a', Isa.run 5 (boot (loaded_words first_svc_file)) no_input [] = ([Exit 42], no_input, a', Exited 42)) /\
-  well_behaved 5 (loaded_words first_svc_file) no_input.
+  well_behaved (loaded_words first_svc_file) no_input.
 Proof. exact first_svc_witness. Qed.
+(* a binary that reads words outside its image (exit word never written) satisfies the hypotheses: hextb exits with 0 from
+   every power-on contents, as the ISA and hexsim do; before load() cleared the memory it returned the power-on word *)
+Example C06_unwritten_read :
+  outcome (run Previous RtlHex.design 60 0 (power_on Previous (filled 0) unwritten_read_file) no_input []) = ([Exit 0], TReturned 0) /\
+  outcome (run Previous RtlHex.design 60 0 (power_on Previous (filled 5) unwritten_read_file) no_input []) = ([Exit 5], TReturned 5) /\
+  outcome (run Current RtlHex.design 60 0 (power_on Current (filled 0) unwritten_read_file) no_input []) = ([Exit 0], TReturned 0) /\
+  outcome (run Current RtlHex.design 60 0 (power_on Current (filled 5) unwritten_read_file) no_input []) = ([Exit 0], TReturned 0) /\
+  (exists a', Isa.run 5 (boot (loaded_words unwritten_read_file)) no_input [] = ([Exit 0], no_input, a', Exited 0)) /\
+  file_ok unwritten_read_file /\ well_behaved (loaded_words unwritten_read_file) no_input.
+Proof. exact clearing_witness. Qed.
